@@ -10,6 +10,7 @@
 -/
 import Hg.Proofs.TreeLaws3
 import Hg.Props.Examples
+import Hg.Proofs.CountTLaws
 
 namespace Hg.C01
 
@@ -72,5 +73,15 @@ open Hg.Ex in
 #guard decide (reduce ([s1, s2].map (fillAll z)) (.node (.leaf 1) (.leaf 0)) = some (fillAll z (s1 ++ s2)))
 open Hg.Ex in
 example : (Sched.node (.leaf 1) (.leaf 0)).leaves.Perm (List.range [s1, s2].length) := by decide
+
+/-- partition invariance for a Count with **any** weight transform `f` (`Hg.Model.CountT`; the tree model has identity
+Counts only): every partition into chunks, every order and grouping of `+` -/
+theorem count_transform_partition_invariant {W : Type} (pos : W → Bool) (f : W → Rat)
+    (chunks : List (List W)) (σ : Sched) (hσ : σ.leaves.Perm (List.range chunks.length)) :
+    CountT.reduceT (chunks.map (CountT.fillAll pos f 0)) σ = some (CountT.fillAll pos f 0 chunks.flatten) :=
+  CountT.partition_invariant pos f chunks σ hσ
+
+example : CountT.reduceT ([[Val.fin 2, .nan], [], [.fin 3, .fin 0]].map (CountT.fillAll Val.pos (fun w => match w with | .fin q => q * q | _ => 0) 0))
+    (.node (.leaf 2) (.node (.leaf 0) (.leaf 1))) = some 13 := by decide +kernel
 
 end Hg.C01
